@@ -111,6 +111,16 @@ def run(ctx):
                         dict(code=code, word=word))
             except Exception as e:
                 bad('rp-decode', 'RP66V1 %s(%s) raised %s' % (R.REP_CODE_INT_TO_STR.get(code), by.hex(), e), dict(code=code, word=word))
+            try:          # ... and in the middle of a record, after other fields (a value is its own bytes wherever it stands)
+                pre = (b'\x00', b'\xff\x7f', b'\x80', b'\x01\x02\x03')[word % 4]
+                ld3 = RF.LogicalData(pre + by + b'\x55')
+                ld3.chunk(len(pre))
+                got_mid = R.code_read(code, ld3)
+                if not (got_mid == got or (got_mid != got_mid and got != got)) or ld3.index != len(pre) + rp_fixed[code]:
+                    bad('rp-decode', 'RP66V1 code_read(%d) of %s after %d other bytes = %r consuming %d, at the start of a record %r' % (
+                        code, by.hex(), len(pre), got_mid, ld3.index - len(pre), got), dict(code=code, word=word, prefix=pre.hex()))
+            except Exception as e:
+                bad('rp-decode', 'RP66V1 code_read(%d) of %s after other bytes raised %s' % (code, by.hex(), e), dict(code=code, word=word))
             if ld.index != rp_fixed[code]:
                 bad('rp-consume', 'RP66V1 code %d consumed %d bytes, standard %d' % (code, ld.index, rp_fixed[code]), dict(code=code))
             if cls in ('inf', 'nan'):
